@@ -53,7 +53,12 @@ void run(Ctx &c, bool scripted) {
 	for(int i = 0; i < POOL; i++) { new (&pool[i]) Node; pool[i].serial = i; }
 	Run r{c, c.make<ITree>(), {}};
 	int next_free = 0; std::vector<Node *> free_list;
-	bool small = scripted || t.pick(3) != 0;
+	uint32_t rs = scripted ? 0 : t.next();
+	bool small = scripted || rs % 3 != 0;
+	// toggle histories: a handful of node objects that are removed and inserted again and again without being re-constructed (the tree runs empty often)
+	bool toggle = !scripted && (rs / 3) % 4 == 3;
+	int cap = toggle ? 3 + (int)((rs / 12) % 3) : POOL;
+	if(toggle) c.tag("toggle-small-node-pool");
 	int U = scripted ? 4 : (small ? 8 : 100000);
 	static const int offsets[] = {0, 0, -3, -8, -20, -100000, -2000000000};
 	int OFF = scripted ? 0 : offsets[t.pick(7)];
@@ -63,8 +68,13 @@ void run(Ctx &c, bool scripted) {
 	c.op("%s universe %d..%d", scripted ? "scripted" : "history", OFF, OFF + U - 1);
 	auto ins = [&](int lo, int hi) {
 		Node *n;
-		if(!free_list.empty() && !scripted && t.pick(3) == 0) { n = free_list.back(); free_list.pop_back(); c.tag("reinsert-removed-node"); }
-		else if(next_free < POOL) n = &pool[next_free++]; else return;
+		if(!free_list.empty() && !scripted && (t.pick(3) == 0 || next_free >= cap)) {
+			size_t at = toggle ? t.pick(free_list.size()) : free_list.size() - 1;
+			n = free_list[at]; free_list.erase(free_list.begin() + at); c.tag("reinsert-removed-node");
+			if(r.ref.empty()) c.tag("reinsert-into-empty-tree");
+			// the same mapping comes back: most re-insertions keep the interval the node object had before
+			if(toggle && t.pick(4) != 0) { lo = n->lo; hi = n->hi; }
+		} else if(next_free < cap) n = &pool[next_free++]; else return;
 		n->lo = lo; n->hi = hi;
 		c.op("insert [%d,%d]", lo, hi);
 		if(lo == hi) c.tag("point-interval");
@@ -88,6 +98,7 @@ void run(Ctx &c, bool scripted) {
 	} else {
 		unsigned nops = 1 + t.pick(40);
 		if(t.pick(6) == 0) nops += t.pick(150);
+		if(toggle) nops += 40;
 		for(unsigned i = 0; i < nops && !t.done(); i++) {
 			unsigned op = t.pick(10);
 			if(op < 5 || r.ref.empty()) { int lo = t.pick(U); int hi = lo + (t.pick(3) == 0 ? 0 : t.pick(small ? U - lo : 1000)); ins(OFF + lo, OFF + hi); }
